@@ -160,7 +160,7 @@ fn sweep_case(ctx: &Ctx, rep: &mut Report, rng: &mut Rng, cfg: &DbCfg, slice: us
 		.filter(|(i, l)| i % 3 == slice && (!quick || **l < 70_000 || (**l / 4096) % 3 == slice % 3))
 		.map(|(_, l)| *l)
 		.collect();
-	let open = || Db::open_or_create(&cfg.options(&path)).map_err(|e| Fail { sig: "failure=open_error".into(), detail: format!("{}", e) });
+	let open = || Db::open_or_create(&cfg.options(&path)).map(dbutil::Handle::new).map_err(|e| Fail { sig: "failure=open_error".into(), detail: format!("{}", e) });
 	let mut db = open()?;
 	let mut model: BTreeMap<Vec<u8>, Vec<u8>> = BTreeMap::new();
 	let mut keys: Vec<Vec<u8>> = vec![];
@@ -193,7 +193,7 @@ fn sweep_case(ctx: &Ctx, rep: &mut Report, rng: &mut Rng, cfg: &DbCfg, slice: us
 			}
 			if rng.chance(1, 3) {
 				trace.push("restart".into());
-				drop(db);
+				db.close();
 				db = open()?;
 				for k in keys.iter().rev().take(40) {
 					check_key(&db, k, model.get(k), rep, &cfg_key, "read-back after reopen")?;
@@ -299,12 +299,12 @@ fn sweep_case(ctx: &Ctx, rep: &mut Report, rng: &mut Rng, cfg: &DbCfg, slice: us
 		check_key(&db, k, None, rep, &cfg_key, "read after removal")?;
 	}
 	crate::fsck_glue::run_simple(&path, cfg, &BTreeMap::new(), rep)?;
-	drop(db);
+	db.close();
 	let db = open()?;
 	for k in all_keys.iter().step_by(5) {
 		check_key(&db, k, None, rep, &cfg_key, "read after removal + reopen")?;
 	}
-	drop(db);
+	db.close();
 	let _ = (col as fn(bool, bool, bool, bool, CompressionType) -> parity_db::ColumnOptions, COMPRESSIONS);
 	Ok(())
 }
